@@ -199,6 +199,7 @@ type bigSummary struct {
 	Impl    string `json:"impl"`
 	N       int    `json:"n"`
 	Panic   string `json:"panic,omitempty"`
+	Stage   string `json:"stage"` // where a panic happened: construct (FromStrings) or observe
 	LenA    int    `json:"len_get_a"`
 	Len     int    `json:"len"`
 	GetB    string `json:"get_b"`
@@ -213,11 +214,14 @@ func runBig(n int) (s bigSummary) {
 		}
 	}()
 	v := strings.Repeat("x", n)
+	s.Stage = "construct"
 	ls := labels.FromStrings("a", v, "b", "c")
+	s.Stage = "observe"
 	s.Len = ls.Len()
 	s.GetB = ls.Get("b")
 	s.LenA = len(ls.Get("a"))
 	r := rangeOf(ls)
 	s.RangeOK = len(r) == 2 && string(r[0][0]) == "a" && len(r[0][1]) == n && string(r[1][0]) == "b" && string(r[1][1]) == "c"
+	s.Stage = "done"
 	return s
 }
